@@ -17,6 +17,7 @@ Inductive errk :=
 | ECountFewer | ECountInvalid            (* ErrRightmostTrustedCount: fewer IPs than expected / invalid IP *)
 | ERangeResolver | ERangeNoValid         (* ErrRightmostTrustedRange: range resolver failed / no valid IP *)
 | EChainEmpty                            (* ErrChain: no resolver configured *)
+| ENoResolver                            (* fox.ErrNoClientIPResolver, from Context.ClientIP *)
 | EOther.                                (* anything else the harness observes; never produced by the model *)
 
 Definition errk_eqb (a b : errk) : bool :=
@@ -24,7 +25,7 @@ Definition errk_eqb (a b : errk) : bool :=
   | EInvalidIP, EInvalidIP | EUnspecifiedIP, EUnspecifiedIP | ERemoteInvalid, ERemoteInvalid
   | ERemoteUnspecified, ERemoteUnspecified | ESingleNotFound, ESingleNotFound | ELeftmost, ELeftmost
   | ERightNonPrivate, ERightNonPrivate | ECountFewer, ECountFewer | ECountInvalid, ECountInvalid
-  | ERangeResolver, ERangeResolver | ERangeNoValid, ERangeNoValid | EChainEmpty, EChainEmpty | EOther, EOther => true
+  | ERangeResolver, ERangeResolver | ERangeNoValid, ERangeNoValid | EChainEmpty, EChainEmpty | ENoResolver, ENoResolver | EOther, EOther => true
   | _, _ => false
   end.
 
